@@ -30,6 +30,11 @@ def features(mod, t, v):
         f.add('k:' + k)
         if k == 'SET':
             f.add('has_SET')
+        al = alpha_of(mod, t) if k in ('IA5String', 'VisibleString', 'PrintableString', 'NumericString', 'BMPString', 'UniversalString') else None
+        if al:
+            cs = sorted(set(ord(c) for c in al))
+            if cs[-1] - cs[0] + 1 != len(cs):
+                f.add('alpha_from_noncontiguous')      # compiled to a lookup table + PER character map
         if k == 'INTEGER':
             c = int_cons(mod, t)
             if c is not None and not c.ext and c.lb is not None and c.ub is None and c.lb != 0:
